@@ -85,6 +85,10 @@ _gen_schemas = {}
 def generated_schema(k):
     """A valid schema from G-schema (cached per worker), or None if it has no usable query root."""
     if k not in _gen_schemas:
+        # bounded: thousands of cached schemas are millions of live objects, which every full garbage collection has to
+        # traverse - and the scheduling checks create cyclic garbage (loops, tasks, futures) all the time
+        while len(_gen_schemas) >= 48:
+            _gen_schemas.pop(next(iter(_gen_schemas)))
         from graphql import build_schema
         from ..gen.schema import SchemaGen, render_sdl
         m = SchemaGen(random.Random(9_000_000 + k), adversarial=0.0).model()
